@@ -16,8 +16,8 @@ Init == /\ l = 1 /\ nbad = NoBad /\ c = NoCase
                  runs_panic |-> 0, runs_other |-> 0]
 
 e == Rec[l]
-Sig(class, detail) == [fmt |-> c.fmt, api |-> c.api, class |-> class, detail |-> detail]
-Ctx == [case |-> [id |-> c.id, fmt |-> c.fmt, api |-> c.api, gen |-> c.gen, mutation |-> c.mutation, n |-> c.n],
+Sig(class, detail) == [fmt |-> c.fmt, api |-> c.api, class |-> class, detail |-> detail, build |-> c.build]
+Ctx == [case |-> [id |-> c.id, build |-> c.build, fmt |-> c.fmt, api |-> c.api, gen |-> c.gen, mutation |-> c.mutation, n |-> c.n],
         event |-> e]
 
 Case == /\ e.ev = "case" /\ c' = e /\ st' = [st EXCEPT !.cases = @ + 1] /\ UNCHANGED nbad
